@@ -33,6 +33,7 @@ type PropSpec struct {
 	Exclude        []string   `json:"exclude_classes"`
 	NoInv          bool       `json:"no_invariants"`
 	SkipInv        []string   `json:"skip_invariants"`
+	Include        []string   `json:"include"` // entries of these properties are checked under this property as well
 	standinReports []map[string]any
 }
 
@@ -462,6 +463,22 @@ func loadPropSpec(path string) (*PropSpec, error) {
 	var s PropSpec
 	if err := json.Unmarshal(data, &s); err != nil {
 		return nil, err
+	}
+	have := map[string]bool{}
+	for _, en := range s.Entries {
+		have[en.Func] = true
+	}
+	for _, inc := range s.Include {
+		sub, err := loadPropSpec(filepath.Join(filepath.Dir(path), inc+".json"))
+		if err != nil {
+			return nil, err
+		}
+		for _, en := range sub.Entries {
+			if !have[en.Func] {
+				have[en.Func] = true
+				s.Entries = append(s.Entries, en)
+			}
+		}
 	}
 	return &s, nil
 }
